@@ -6,13 +6,13 @@ from props import judges
 from props.common import TRUSTED_BASE, ASSUMPTIONS
 
 ID = "C06"
-LEAN_MODULES = ["LexVerif.Props.C06", "LexVerif.Props.RoundNE", "LexVerif.Props.TablesWrite", "LexVerif.Props.Literals.WriteFloatBinary", "LexVerif.Props.Literals.WriteFloatHex", "LexVerif.Props.Literals.WriteFloatShared", "LexVerif.Props.Literals.WriteFloatWrite", "LexVerif.Props.Literals.WriteIntegerRadix", "LexVerif.Props.Literals.WriteIntegerAlgorithm", "LexVerif.Props.Literals.WriteIntegerDigitCount", "LexVerif.Props.Literals.UtilDigit"]
+LEAN_MODULES = ["LexVerif.Props.C06", "LexVerif.Props.RoundNE", "LexVerif.Props.TablesWrite", "LexVerif.Props.Literals.WriteFloatBinary", "LexVerif.Props.Literals.WriteFloatHex", "LexVerif.Props.Literals.WriteFloatShared", "LexVerif.Props.Literals.WriteFloatWrite", "LexVerif.Props.Literals.WriteIntegerRadix", "LexVerif.Props.Literals.WriteIntegerAlgorithm", "LexVerif.Props.Literals.WriteIntegerDigitCount", "LexVerif.Props.Literals.UtilDigit", "LexVerif.Props.LiteralsModelWrite"]
 GEN = ["write_tables", "literals"]
 TRUSTED = TRUSTED_BASE + [
     "binary.rs / hex.rs are modelled in Lean (Model/WriteBinary.lean; the `wf` model column must equal the implementation's bytes on every op). "
     "Proved for ALL finite floats (sign removed, zero included), radices 2/4/8/16/32, all documented base pairs, all three notations: the laid-out digits denote exactly "
-    "the float (writeBinary_exact_digits_partial) and re-round to the same bits (writeBinary_roundtrip_partial). NOT proved: digits -> bytes -> "
-    "parser inverse (byte-level Prop writeBinary_exact), sign, specials, max_significant_digits: covered by the exact-value judge on every op; "
+    "the float (writeBinary_exact_digits_partial) and re-round to the same bits (writeBinary_roundtrip_partial). Also proved at BYTE level (writeBinary_exact_holds): "
+    "parseStdComplete(bytes written) is a literal that litBits maps back to the same bits, for every finite float of either sign. NOT proved: specials, max_significant_digits, formats with syntax flags: covered by the exact-value judge on every op; "
     "mantissa digits are Spec.toDigits (the integer writer is C03's subject)",
 ]
 RULE = ("for radix 2/4/8/16/32 and the mixed formats 4/2, 8/2, 16/2, 32/2, 16/4 (exponent radix 10, radix, base): every binade x "
@@ -21,7 +21,7 @@ RULE = ("for radix 2/4/8/16/32 and the mixed formats 4/2, 8/2, 16/2, 32/2, 16/4 
         "(Lean oracle, big rationals), implementation re-parse == same bits. non-trivial = finite non-zero; distinct = distinct ops")
 TECHNIQUE = "Lean 4 oracle theorems (roundNE exact on floats) + exact rational evaluation of every written output by the Lean driver + re-parse correspondence"
 LEVEL_TEXT = ("Proved in Lean: roundNE returns a float when given that float's exact value (roundNE_of_valQ), so 'output denotes exactly the float' implies "
-              "'re-parsing correctly returns identical bits'. For the Lean model of binary.rs/hex.rs (default digit options): calculate_shl / scale_sci_exp / fast_ceildiv are floor division and modulus, and for every finite non-zero f32/f64 the digits written in scientific or positional notation denote exactly the float. Byte-level rendering/parsing is not proved; each output on the stream is evaluated exactly "
+              "'re-parsing correctly returns identical bits'. For the Lean model of binary.rs/hex.rs (default digit options): calculate_shl / scale_sci_exp / fast_ceildiv are floor division and modulus, and for every finite f32/f64 the digits written in scientific or positional notation denote exactly the float, and the written bytes parse back (Spec.parseStdComplete, Spec.litBits) to the same bits (writeBinary_exact_holds). Each output on the stream is evaluated exactly "
               "(no rounding) by the Lean driver and compared with the float, and re-parsed by the implementation. Partial proof, stated as such.")
 LEVEL_NOTE = "Trusted: Lean kernel; rustc; differential harness; generators; the tie model<->code is the byte-for-byte wf correspondence (>= 120k ops per feature set)."
 
